@@ -1550,7 +1550,9 @@ impl Mirror {
             rows: (0..sk.seeds.len()).map(|_| vec![0u8; sk.total_counters as usize]).collect(),
             bloom: bloomfilter::Bloom::new_for_fp_rate(cfg_counters as usize, 0.01),
             total: 0,
-            reset_at: sk.reset_counters_at,
+            // "after exactly the configured number of recorded accesses": the threshold is the
+            // configuration's, not whatever the implementation stored
+            reset_at: cfg_counters,
             window: BTreeMap::new(),
             resets: 0,
             batches: 0,
